@@ -3,6 +3,7 @@ From Coq Require Import List NArith.
 From PT Require Import Model.Base Model.Stack Model.Texpr Model.Sem Model.Tracker Model.Report.
 From Coq Require Import Sorted.
 From PT Require Import Proofs.TrackerProofs Proofs.ErrorLocation Proofs.CheckParse Proofs.TraceSound Proofs.ReportProofs.
+From PT Require Import Model.Lines Model.LinesSpec Model.ReportHead Proofs.BoundaryOps Proofs.Boundary Proofs.ReportHeadProofs Proofs.ReportHeadEntry.
 Import ListNotations.
 
 (* the reported location is never before the starting cursor (boundary / upper bound: C09_error_location) *)
@@ -193,3 +194,32 @@ Theorem C10_rendered_report_truthful : forall E fuel r st',
           verdict (tcheck E fuel' inh' (r_body (e_rules E r')) (t_position T) (ev (EEnter r' (t_position T)) st1)) = Some true).
 Proof. exact rendered_report_truthful. Qed.
 Print Assumptions C10_rendered_report_truthful.
+
+(* ---- the head of the rendered message: `&line[..index_of_the_(col-1)th_char]` (tracker.rs collect_to_message) ------------- *)
+
+(* at every character boundary of every string the slice is taken without panic and is the text between the last LF before the
+   location and the location -- byte index of the (col-1)-th char, not col-1 itself *)
+Theorem C10_head_line : forall cs k, valid_str cs ->
+  head_line (encode cs) (boff cs k) = MOk (encode (after_last_lf (firstn k cs))).
+Proof. exact head_line_correct. Qed.
+Print Assumptions C10_head_line.
+
+Theorem C10_head_line_no_panic : forall cs p, valid_str cs -> pos_new (encode cs) p = Some p ->
+  exists h, head_line (encode cs) p = MOk h.
+Proof. exact head_line_no_panic. Qed.
+Print Assumptions C10_head_line_no_panic.
+
+(* hence at the location reported for any entry point on any input string *)
+Theorem C10_entry_report_head_renders : forall E fuel r cs, env_ok E -> valid_str cs -> parent (e_inp E) = encode cs ->
+  forall st,
+    (final_state (try_parse_partial E fuel r) = Some st \/ final_state (try_check_partial E fuel r) = Some st \/
+     final_state (try_parse E fuel r) = Some st \/ final_state (try_check E fuel r) = Some st) ->
+    exists h, head_line (encode cs) (t_position (run_tracker (i_start (e_inp E)) (tr st))) = MOk h.
+Proof. exact entry_report_head_renders. Qed.
+Print Assumptions C10_entry_report_head_renders.
+
+(* the statement is not vacuous, and indexing by the column itself would panic: "\229\144\141=" (one CJK character, then '=') at its end *)
+Theorem C10_head_line_example :
+  head_line [229; 144; 141; 61]%N 4 = MOk [229; 144; 141; 61]%N /\ head_line_charidx [229; 144; 141; 61]%N 4 = MPanic.
+Proof. exact head_line_example. Qed.
+Print Assumptions C10_head_line_example.
